@@ -183,7 +183,9 @@ def reports_error(facts, stmts, depth=2):
     return False
 
 
-FIXTURE_PREFIX = '/verif/fixtures/'
+from ..build import VERIF as _VERIF
+import os as _os
+FIXTURE_PREFIX = _os.path.join(_VERIF, 'fixtures') + '/'
 
 
 def is_fixture(a):
